@@ -22,7 +22,9 @@ pub enum Ans {
     Short(usize),
     Zero,
     Eintr,
-    Error,
+    /// a hard error; the index picks its kind (0 other/EIO, 1 WouldBlock/EAGAIN, 2 BrokenPipe/EPIPE,
+    /// 3 TimedOut/ETIMEDOUT): every kind but an interruption ends the transfer and is reported
+    Error(u8),
 }
 
 #[derive(Clone, Copy, Debug, PartialEq, Eq, PartialOrd, Ord)]
@@ -114,7 +116,9 @@ impl ScriptState {
             if self.eintr_run < 3 {
                 alts.push(Ans::Eintr);
             }
-            alts.push(Ans::Error);
+            for k in 0..4u8 {
+                alts.push(Ans::Error(k));
+            }
         }
         let costs: Vec<u32> = alts.iter().map(|a| if *a == Ans::Full { 0 } else { 1 }).collect();
         // SAFETY: the explorer outlives the call under exploration
@@ -130,8 +134,23 @@ impl ScriptState {
     }
 }
 
-fn scripted_error() -> std::io::Error {
-    std::io::Error::new(ErrorKind::Other, "scripted hard error")
+fn scripted_error(k: u8) -> std::io::Error {
+    let kind = match k {
+        1 => ErrorKind::WouldBlock,
+        2 => ErrorKind::BrokenPipe,
+        3 => ErrorKind::TimedOut,
+        _ => ErrorKind::Other,
+    };
+    std::io::Error::new(kind, "scripted hard error")
+}
+
+fn scripted_errno(k: u8) -> i32 {
+    match k {
+        1 => libc::EAGAIN,
+        2 => libc::EPIPE,
+        3 => libc::ETIMEDOUT,
+        _ => libc::EIO,
+    }
 }
 
 #[derive(Clone)]
@@ -152,7 +171,7 @@ impl ReadVolatile for Scripted {
                     ErrorKind::Interrupted,
                 )))
             }
-            Ans::Error => return Err(VolatileMemoryError::IOError(scripted_error())),
+            Ans::Error(k) => return Err(VolatileMemoryError::IOError(scripted_error(k))),
         };
         let data: Vec<u8> = (0..n).map(|i| stream_byte(st.consumed + i)).collect();
         st.consumed += n;
@@ -180,7 +199,7 @@ impl WriteVolatile for Scripted {
                     ErrorKind::Interrupted,
                 )))
             }
-            Ans::Error => return Err(VolatileMemoryError::IOError(scripted_error())),
+            Ans::Error(k) => return Err(VolatileMemoryError::IOError(scripted_error(k))),
         };
         if n > 0 {
             let g = buf.ptr_guard();
@@ -209,7 +228,7 @@ fn classify_io(e: &std::io::Error) -> ErrK {
         ErrorKind::UnexpectedEof => ErrK::UnexpectedEof,
         ErrorKind::WriteZero => ErrK::WriteZero,
         _ => {
-            if e.to_string().contains("scripted hard error") || e.raw_os_error() == Some(libc::EIO) {
+            if e.to_string().contains("scripted hard error") || matches!(e.raw_os_error(), Some(libc::EIO) | Some(libc::EAGAIN) | Some(libc::EPIPE) | Some(libc::ETIMEDOUT)) {
                 ErrK::Scripted
             } else {
                 ErrK::Other(format!("io:{}", e))
@@ -509,7 +528,7 @@ fn execute_seq(cases: &[Case], ex: &mut Explorer, max_calls: usize, all_shorts: 
                     Ans::Short(k) => k,
                     Ans::Zero => 0,
                     Ans::Eintr => return IoAnswer::Err(libc::EINTR),
-                    Ans::Error => return IoAnswer::Err(libc::EIO),
+                    Ans::Error(k) => return IoAnswer::Err(scripted_errno(k)),
                 };
                 if r.is_read {
                     for i in 0..n {
@@ -535,7 +554,7 @@ fn execute_seq(cases: &[Case], ex: &mut Explorer, max_calls: usize, all_shorts: 
             violation = Some((k.to_string(), d));
         }
     };
-    let had_error = calls.iter().any(|c| c.1 == Ans::Error);
+    let had_error = calls.iter().any(|c| matches!(c.1, Ans::Error(_)));
     let had_zero = calls.iter().any(|c| c.1 == Ans::Zero && c.0 > 0);
     let run = t.run(case.off);
     let avail = run.min(case.count);
@@ -553,7 +572,7 @@ fn execute_seq(cases: &[Case], ex: &mut Explorer, max_calls: usize, all_shorts: 
     }
     // 2. a hard error ends the transfer and is reported
     if had_error {
-        if calls.last().map(|c| c.1) != Some(Ans::Error) {
+        if !matches!(calls.last().map(|c| c.1), Some(Ans::Error(_))) {
             fail("call-after-error", format!("the stream was called again after a hard error: {:?}", calls));
         }
         if result != Err(ErrK::Scripted) {
@@ -698,7 +717,7 @@ fn cases(tier: Tier) -> Vec<Case> {
 
 pub fn run(tier: Tier, replay: Option<String>) -> i32 {
     let ctx = crate::new_ctx("C14", tier, "fault_enumeration", &replay);
-    ctx.set_rule("choice-tree DFS: every call the transfer makes to the underlying stream is a choice among full / short by k / zero / EINTR (<=3 in a row) / hard error; scripts of up to max_calls scripted calls, at most `bound` non-default answers per script (all bounds 0..=B enumerated completely); streams: a scripted ReadVolatile/WriteVolatile and the real File adapter over interposed read(2)/write(2); targets: slice, region, guest memory spanning two regions and a hole; a case is non-trivial when its script contains at least one non-default answer; distinct = distinct (case, script) pairs, by construction of the DFS");
+    ctx.set_rule("choice-tree DFS: every call the transfer makes to the underlying stream is a choice among full / short by k / zero / EINTR (<=3 in a row) / hard error of four kinds (other, WouldBlock, BrokenPipe, TimedOut); scripts of up to max_calls scripted calls, at most `bound` non-default answers per script (all bounds 0..=B enumerated completely); streams: a scripted ReadVolatile/WriteVolatile and the real File adapter over interposed read(2)/write(2); targets: slice, region, guest memory spanning two regions and a hole; a case is non-trivial when its script contains at least one non-default answer; distinct = distinct (case, script) pairs, by construction of the DFS");
     ctx.assume("the scripted stream and the interposed syscalls deliver exactly what the script says");
     if let Err(e) = crate::interpose::selftest() {
         ctx.machinery(&format!("interposition self-test failed: {}", e));
